@@ -357,7 +357,9 @@ def run(p: Program, rep: Report, tier: str) -> None:
                 rep.violation("R7.5", construct(e2, text=f"return {show(v)[:60]}"), where(e2), f"{side} Pages.ensure_absolute_path returns a path that did not come from the base sanitiser")
             elif v == sup:
                 rep.ok("R7.5", f"{side} Pages: returns the base sanitiser's result")
-            elif split_suffix(v) == (sup, "index.html") and (("call", ("attr", sup, "endswith"), (("const", "/"),), (), 0)[:4] in [f[:4] for f, t in pa.facts if t and f[0] == "call"]):
+            elif split_suffix(v) == (sup, "index.html") and ((("call", ("attr", sup, "endswith"), (("const", "/"),), (), 0)[:4] in [f[:4] for f, t in pa.facts if t and f[0] == "call"])
+                                                             or any(t and f[0] == "cmp" and f[1] == "Eq" and ("/" in (f[2][1] if f[2][0] == "const" else None, f[3][1] if f[3][0] == "const" else None))
+                                                                    and any(x[0] == "sub" and x[1] == sup and x[2][0] == "slice" and x[2][1] == ("const", -1) for x in (f[2], f[3])) for f, t in pa.facts)):
                 rep.ok("R7.5", f"{side} Pages: appends the constant 'index.html' only to a result ending in '/'")
             else:
                 rep.violation("R7.5", construct(e2, text=f"return {show(v)[:80]}"), where(e2), f"{side} Pages.ensure_absolute_path appends something other than 'index.html' to a '/'-terminated sanitised path")
